@@ -45,6 +45,10 @@ fn run_suite<C: Suite>(ctx: &mut Ctx) {
             }
         }
     }
+    g += 1;
+    if ctx.mine(g) {
+        directed::<C>(ctx, g);
+    }
     let s = format!("every (t,n) with n<={nmax} and every subset of every size, per scheme and group");
     if !ctx.exhaustive.contains(&s) {
         ctx.exhaustive.push(s);
@@ -153,7 +157,10 @@ fn one<C: Suite>(ctx: &mut Ctx, g: u64, scheme: Scheme, t: usize, nn: usize, exh
             if enough {
                 ctx.expect(r.as_deref() == Some(&msg[..]), &format!("C12/threshold-decrypt-failed/{n}/{sn}/decrypt_with_shares"), || dd("t or more shares do not decrypt"));
             } else {
-                ctx.expect(r.as_deref() != Some(&msg[..]), &format!("C12/too-few-decrypt/{n}/{sn}/decrypt_with_shares"), || dd("fewer than t shares return the original message"));
+                // no key confirmation (see C11): a wrong combined point returns the original
+                // message with probability ~256^-(1+len); observable only for len <= 2
+                let sig = if msg.len() <= 2 { "C12/too-few-decrypt/no-key-confirmation(len<=2)".to_string() } else { format!("C12/too-few-decrypt/{n}/{sn}/decrypt_with_shares") };
+                ctx.expect(r.as_deref() != Some(&msg[..]), &sig, || dd("fewer than t shares return the original message"));
             }
             ctx.hit(&format!("{n}/{sn}/decrypt/{cls}"), &[&ctb, &fpd]);
         }
@@ -162,10 +169,42 @@ fn one<C: Suite>(ctx: &mut Ctx, g: u64, scheme: Scheme, t: usize, nn: usize, exh
             if enough {
                 ctx.expect(out.as_deref() == Some(&msg[..]), &format!("C12/threshold-decrypt-failed/{n}/{sn}/decryption-key"), || dd("a key combined from t or more shares does not decrypt"));
             } else {
-                ctx.expect(out.as_deref() != Some(&msg[..]), &format!("C12/too-few-decrypt/{n}/{sn}/decryption-key"), || dd("a key combined from fewer than t shares returns the original message"));
+                let sig = if msg.len() <= 2 { "C12/too-few-decrypt/no-key-confirmation(len<=2)".to_string() } else { format!("C12/too-few-decrypt/{n}/{sn}/decryption-key") };
+                ctx.expect(out.as_deref() != Some(&msg[..]), &sig, || dd("a key combined from fewer than t shares returns the original message"));
             }
             ctx.hit(&format!("{n}/{sn}/key/{cls}"), &[&ctb, &fpd]);
         }
     }
     ctx.sample(&format!("{n}/{sn}/decrypt/>=t"), || d("threshold decryption"));
+}
+
+/// Directed search for the recorded known finding "no key confirmation": for the EMPTY message,
+/// two shares of a fresh 3-of-3 split give a wrong combined point; re-split until the wrong key
+/// stream happens to start with the byte that parses as length 0 (expected after ~256 splits).
+/// The reference computes the candidates, the LIBRARY confirms the witness.
+fn directed<C: Suite>(ctx: &mut Ctx, g: u64) {
+    let mut rng = ctx.rng(g);
+    let n = C::NAME;
+    let k = gen::random_scalar(&mut rng);
+    let sk = sk_from_rs::<C>(&k);
+    let pk = sk.public_key();
+    let msg: Vec<u8> = vec![];
+    let ct = pk.sign_crypt(SignatureSchemes::Basic, &msg);
+    let Some(ru) = RPk::<C>::dec(&enc_pt(&ct.u)) else { return };
+    for tries in 0..20_000u32 {
+        let sh = sk.split(3, 3).expect("split");
+        let parts: Vec<(u8, refimpl::RS)> = sh.iter().take(2).map(|s| crate::monitors::util::sk_share_parts::<C>(s)).collect();
+        let Some(wrong) = refimpl::interpolate_scalars(&parts) else { continue };
+        if refimpl::shake128_xor(&ru.mul(&wrong).enc(), &ct.v[..1])[0] != 0 {
+            continue;
+        }
+        let sel: Vec<SignDecryptionShare<C>> = sh.iter().take(2).filter_map(|s| ct.create_decryption_share(s).ok()).collect();
+        let got = ct_some(ct.decrypt_with_shares(&sel));
+        ctx.count("no-key-confirmation/search-trials", tries as u64 + 1);
+        ctx.expect(got.as_deref() != Some(&msg[..]), "C12/too-few-decrypt/no-key-confirmation(len<=2)", || {
+            json!({"what":"two shares of a 3-of-3 split returned the original (empty) message: the ciphertext carries no key confirmation","suite":n,"sk":hex::encode(k.to_be_bytes()),"ct":hx(&Vec::from(&ct)),"found_after_trials":tries + 1})
+        });
+        ctx.hit(&format!("{n}/Basic/decrypt/<t"), &[b"directed", &Vec::from(&ct)]);
+        break;
+    }
 }
